@@ -260,7 +260,14 @@ func GenSMTP(t *rapid.T) Dialog {
 	line(rapid.SampledFrom([]string{"HELO ", "EHLO "}).Draw(t, "hello")+token(t, "domain", 1, 10)+".example", false)
 	n := rapid.IntRange(0, 4).Draw(t, "nunits")
 	for i := 0; i < n; i++ {
-		switch rapid.SampledFrom([]string{"mail-data", "mail-data", "mail-bdat", "noop", "rset", "help", "unknown"}).Draw(t, "unit") {
+		switch rapid.SampledFrom([]string{"mail-data", "mail-data", "mail-bdat", "mail-bdat", "bdat-aborted", "noop", "rset", "help", "unknown"}).Draw(t, "unit") {
+		case "bdat-aborted":
+			// a transaction that is given up after a first chunk: nothing of it may show up later
+			line("MAIL FROM:<"+token(t, "from", 1, 8)+"@example.org>", false)
+			chunk := "Subject: aborted-" + token(t, "asubj", 1, 8) + "\r\n\r\nstale " + text(t, "stale", 40) + "\r\n"
+			l := fmt.Sprintf("BDAT %d", len(chunk))
+			d.Cmds = append(d.Cmds, Cmd{Name: "BDAT", Wire: []byte(l + "\r\n" + chunk), Exp: []Expect{ev("type", "input", "smtp.line", l)}})
+			line("RSET", false)
 		case "noop":
 			line("NOOP", false)
 		case "rset":
